@@ -80,9 +80,26 @@ def gen_nm(r, max_nm=50, min_nm=1, ns=(1, 2, 3, 4, 5)):
     raise RuntimeError("no admissible (N, m)")
 
 
-def mk_ev(lo, hi, n, m):
+def mk_ev(lo, hi, n, m, via=None):
+    """an Evolvent configured with the box [lo, hi]: built directly, or (about 30 % of the parameter sets, decided by a hash of
+    the parameters so that a replay takes the same route) built on a DIFFERENT box and re-configured with SetBounds - the
+    "configured bounds" of the properties are the current ones whichever way they were set"""
     from iOpt.evolvent.evolvent import Evolvent
-    return Evolvent(np.array(lo, dtype=np.double), np.array(hi, dtype=np.double), n, m)
+    lo_a, hi_a = np.array(lo, dtype=np.double), np.array(hi, dtype=np.double)
+    if via is None:
+        import zlib
+        h = zlib.crc32(repr((list(map(float, lo)), list(map(float, hi)), n, m)).encode())
+        via = ("direct", "direct", "direct", "direct", "direct", "direct", "direct", "unit", "shifted", "wide")[h % 10]
+    if via == "direct":
+        return Evolvent(lo_a, hi_a, n, m)
+    if via == "unit":
+        ev = Evolvent(np.zeros(n), np.ones(n), n, m)
+    elif via == "shifted":
+        ev = Evolvent(lo_a + 3.0, hi_a + 4.5, n, m)
+    else:
+        ev = Evolvent(lo_a - 10.0, hi_a + 10.0, n, m)
+    ev.SetBounds(lo_a, hi_a)
+    return ev
 
 
 # ------------------------------------------------------------------------------------------------
